@@ -17,7 +17,8 @@ s = SendUnit(keep=skeep('C03.'))
 s.mutants = SEND_MUTANTS['C03']
 m = MQUnit(keep=keep_for('C03.', 'C01.id_carry'))      # no frame is lost at a rejoin only if every hop republishes under the id it received
 m.mutants = tuple(x for x in MQUnit.mutants if 'C03' in x[4])
-RQ = [Shape(('all',), (0,), False), Shape(('all', 'all'), (0, 0), False), Shape(('all', 'explicit'), (0, 1), False)]
+RQ = [Shape(('all',), (0,), False), Shape(('all', 'all'), (0, 0), False), Shape(('all', 'explicit'), (0, 1), False),
+      Shape(('all', 'all'), (0, 0), False, timeout='sym', entry='held')]       # a recv() retried after a timeout (the slow branch of a join is late)
 r = RecvUnit({'C03'}, RQ, RQ + [Shape(('all', 'all', 'all'), (0, 0, 0), False), Shape(('all', 'all'), (0, 0), True)], keep=keep_for('C03.'))
 r.mutants = RECV_MUTANTS['C03']
 r.required_covers = RecvUnit.required_covers + ('request sent',)
